@@ -40,6 +40,7 @@ Failing ==
     (IF A_LateAndForeignIgnored THEN {} ELSE {"LateAndForeignIgnored"}) \cup
     (IF A_NoDoubleIndication THEN {} ELSE {"NoDoubleIndication"}) \cup
     (IF A_SameIdDifferentPeersIndependent THEN {} ELSE {"SameIdDifferentPeersIndependent"}) \cup
+    (IF A_NewRequestIndicated THEN {} ELSE {"SameIdDifferentPeersIndependent"}) \cup
     (IF A_NewRequestGetsFreshKey THEN {} ELSE {"IdUniquePerPeer"})
 
 Step ==
